@@ -1233,7 +1233,8 @@ Proof.
     split; [reflexivity|]. split; [repeat split; reflexivity|].
     exists (FailFacts.fs_bs fe_st), None. constructor; cbn [opt_batch].
     - constructor; vm_compute; reflexivity.
-    - vm_compute. repeat constructor; try discriminate; try reflexivity.
+    - replace (cur_ents (match fe_tail_file with Some f => f | None => created 0 end)) with (fe_b1 ++ fe_bc) by (vm_compute; reflexivity).
+      repeat constructor; try (vm_compute; intros; discriminate); try (vm_compute; reflexivity).
     - vm_compute. reflexivity.
     - exists (skipn 152 (bf_data fe_bf)). vm_compute. reflexivity.
     - reflexivity. }
